@@ -188,7 +188,7 @@ def run(prop, tier, which):
         mech_info = []
         if prop == 'C12':
             from .. import mechbind
-            mech_info = mechbind.merge_mech(work, V)
+            mech_info = mechbind.merge_mech(work, V) + mechbind.select_candidates(work, V)
         rc = V.finish(max_print=40)
         from collections import Counter
         srcs = Counter(c['src'].split(':')[0] for c in cases)
